@@ -656,4 +656,3 @@ func checkEmission(w *World, r *Result, fi *FuncInfo, loop *ast.RangeStmt, slice
 		r.bad("PTH-C19a", name, "write of "+wr.arg, w.Pos(wr.call.Pos()), "something other than the declaration content or a constant separator is written")
 	}
 }
-
